@@ -853,7 +853,7 @@ def _needs_shape(v):
     return True
 
 
-def check_case(acc, spec, maxline, shard_check, minimize=True, max_tests=600):
+def check_case(acc, spec, maxline, shard_check, minimize=True, max_tests=600, shrink=None):
     v = verdict(spec, maxline)
     kind = spec[0]
     trivial = v.what is None and v.outcome != 'ok'
@@ -874,13 +874,16 @@ def check_case(acc, spec, maxline, shard_check, minimize=True, max_tests=600):
     if minimize and raw in acc._seen:
         acc.violations[acc._seen[raw]]['count'] += 1
         return v
-    if minimize and shard_check != 'fold':
+    if minimize:
         def still(sp):
             if not D.valid(sp) or sp[0] != kind or not _kw_sane(sp):
                 return False
             w = verdict(sp, maxline)
             return w.what == v.what and w.cause == v.cause
-        spec = M.minimize(spec, still, max_tests=max_tests)
+        if shrink is not None:
+            spec = shrink(still)
+        else:
+            spec = M.minimize(spec, still, max_tests=max_tests)
         v = verdict(spec, maxline)
     sig = make_sig(spec, v, _needs_shape(v))
     acc.violation(sig, dict(check='roundtrip', spec=spec, maxline=maxline), v.expected, v.observed)
@@ -1250,7 +1253,35 @@ def fold_cases(shard):
         for blanks in (False, True):
             for j in (0, 1, 7):
                 for i in range(0, 3 * m + 1):
-                    yield fold_spec(shard['ctx'], fold_string(i, shard['atom'], j, blanks)), m
+                    yield fold_spec(shard['ctx'], fold_string(i, shard['atom'], j, blanks)), m, \
+                        (i, j, blanks)
+
+
+def fold_shrinker(ctx, atom, i, j, blanks):
+    """shrinks a failing sweep case inside the sweep family: no blanks, shorter tail, shorter
+    run of leading characters"""
+    def shrink(still):
+        cur = [i, j, blanks]
+
+        def attempt(ni, nj, nb):
+            if still(fold_spec(ctx, fold_string(ni, atom, nj, nb))):
+                cur[:] = [ni, nj, nb]
+                return True
+            return False
+        if cur[2]:
+            attempt(cur[0], cur[1], False)
+        for nj in (0, 1):
+            if nj < cur[1] and attempt(cur[0], nj, cur[2]):
+                break
+        progress = True
+        while progress and cur[0] > 0:
+            progress = False
+            for ni in (0, cur[0] // 2, cur[0] - 1):
+                if ni < cur[0] and attempt(ni, cur[1], cur[2]):
+                    progress = True
+                    break
+        return fold_spec(ctx, fold_string(cur[0], atom, cur[1], cur[2]))
+    return shrink
 
 
 # ------------------------------------------------------------------------------------------
@@ -1424,8 +1455,9 @@ def run_shard(shard, tier):
     acc = Acc()
     name = shard['check']
     if name == 'fold':
-        for spec, m in fold_cases(shard):
-            check_case(acc, spec, m, 'fold')
+        for spec, m, (i, j, blanks) in fold_cases(shard):
+            check_case(acc, spec, m, 'fold',
+                       shrink=fold_shrinker(shard['ctx'], shard['atom'], i, j, blanks))
         return acc
     if name == 'literal':
         if shard['part'] == 0:
